@@ -47,7 +47,7 @@ prop('C02',
            'too few names (literal, and with the missing names hidden behind the capacity of the slice passed), one bad component inside an N-ary request, container type parameter *S (by name and by type), a focus that lies behind an embedded pointer, names/types that occur at several depths, '
            'and a Reflector handed S by value, **S, nil, *A, unsafe.Pointer, uintptr, a pointer to a twin struct type with the identical layout, a pointer to an unrelated struct; oracle: the model verdict computed from the spec alone: "panic" = the derivation must panic; '
            '"focus" = must not panic and pass the C01 image check at the model focus; "panic or correct" (focus behind a pointer) = either panics at derivation or passes the image check through the pointer with the pointee observed too; wrong dynamic arguments must panic and leave the arena byte-identical; '
-           ' Second tier (E2): struct shapes that exist only at run time (reflect.StructOf: 1..6 fields per struct, value/pointer embedding to depth 4, unexported names, tags) unfolded by the real unfold through the verif-tagged hook hseq.VerifUnfold and focused with optics.NewLens/NewReflector[Blob, A] for A over a static universe of 47 types; oracle: reflect\'s own addressing (FieldByIndex) for listing offsets and field memory, every OTHER focus type of the universe must be refused for the focused field, byte image of a canary-guarded arena for Put. non-trivial = verdict panic / panic-or-correct, or a focus chosen among >= 2 candidates; distinct = different (shape, request)'),
+           ' Second tier (E2): struct shapes that exist only at run time (reflect.StructOf: 1..6 fields per struct, value/pointer embedding to depth 4, unexported names, tags) unfolded by the real unfold through the verif-tagged hook hseq.VerifUnfold and focused with optics.NewLens/NewReflector[Blob, A] for A over a static universe of 47 types; oracle: reflect\'s own addressing (FieldByIndex) for listing offsets and field memory, every OTHER focus type of the universe must be refused for the focused field, byte image of a canary-guarded arena for Put. the same refusals are requested through ForShapeN (unknown name, near-miss type, too few names literally and behind the capacity) and BiMapS/B/I/F (wrong stored type of the same class, unknown name); field types include twins that print alike but differ (same package name, other import path: *ut.Pt vs *altut.Pt, []ut.MyStr); non-trivial = verdict panic / panic-or-correct, or a focus chosen among >= 2 candidates; distinct = different (shape, request)'),
      assumptions=E1_ASSUME,
      parts=[
          dict(name='shapes', engine='E1', kind='gen', gen='lens', pkg='gen', test='TestShapes',
@@ -66,7 +66,7 @@ prop('C03',
      rule=('generated on the same shapes: hseq.New[T]() compared entry by entry with the flattened listing computed from the spec (declaration order, embedded struct by value or by pointer listed and followed by its fields depth-first): Name, Type, PureType, ID = position, key = tag or name, '
            'and for every entry not behind a pointer RootOffs+Offset = address difference computed by the compiler through plain selectors; ForName/ForNameMaybe/New(name) for every key, for absent keys, for the empty key and for field names hidden by a tag; ForType for every type present, for absent and near-miss types; '
            'New(names...) in reversed order with a repeat and with an unknown name; New1..New9 by N-tuples of types (cyclic, both orders) and FMap1..FMap9 with recording functions (the i-th function sees the i-th entry exactly once), FMap over the whole listing; '
-           ' Second tier (E2): struct shapes that exist only at run time (reflect.StructOf: 1..6 fields per struct, value/pointer embedding to depth 4, unexported names, tags) unfolded by the real unfold through the verif-tagged hook hseq.VerifUnfold and focused with optics.NewLens/NewReflector[Blob, A] for A over a static universe of 47 types; oracle: reflect\'s own addressing (FieldByIndex) for listing offsets and field memory, every OTHER focus type of the universe must be refused for the focused field, byte image of a canary-guarded arena for Put. non-trivial = shape with >= 5 entries and at least one embedding; distinct = different shape'),
+           ' Second tier (E2): struct shapes that exist only at run time (reflect.StructOf: 1..6 fields per struct, value/pointer embedding to depth 4, unexported names, tags) unfolded by the real unfold through the verif-tagged hook hseq.VerifUnfold and focused with optics.NewLens/NewReflector[Blob, A] for A over a static universe of 47 types; oracle: reflect\'s own addressing (FieldByIndex) for listing offsets and field memory, every OTHER focus type of the universe must be refused for the focused field, byte image of a canary-guarded arena for Put. the first result of hseq.New is reordered and overwritten by its owner and hseq.New is asked again (results are independent values); field types include twins whose reflect.Type.String() is equal although the types differ (ForType must tell them apart); non-trivial = shape with >= 5 entries and at least one embedding; distinct = different shape'),
      assumptions=E1_ASSUME,
      parts=[
          dict(name='shapes', engine='E1', kind='gen', gen='lens', pkg='gen', test='TestShapes',
@@ -87,7 +87,7 @@ prop('C04',
            'Getter and Setter with drawn conversions; ForShape2..9 by name over distinct leaf fields of mixed types; NewLensM over map[string]int and a named map type with keys present/absent; Iso and Morphism between each shape and the next one over lists of 1..6 isos with nil entries and repeated entries; '
            'oracle: byte images of the canary-guarded arenas of BOTH structures predicted with plain selector assignments: Join obeys the three laws at &p.a.b.c and nothing else changes (padding inside the intermediate structs is exempt); BiMap*: stored value = cmap(b), Get = fmap(field), laws on the converted value; '
            'Getter never writes; Setter writes f(b) and reads the zero value; ShapeN Get = the N selector reads, Put = exactly N selector writes in positional order; map lens: model map, same identity; Forward: target foci := source foci, Inverse after scrambling the source foci restores them, every other byte of both arenas unchanged; '
-           'non-trivial = Join depth >= 3 or through a promoted field, a view type different from the field type, ShapeN over >= 2 different types, Morphism with >= 2 distinct isos and >= 1 nil; distinct = different (shapes, request)'),
+           'one Join lens value is also used by two goroutines at once on two different structures (300 Put/Get rounds each, images checked every round); two morphisms extending ONE base morphism built from a slice with spare capacity are both checked after the second was built; non-trivial = Join depth >= 3 or through a promoted field, a view type different from the field type, ShapeN over >= 2 different types, Morphism with >= 2 distinct isos and >= 1 nil; distinct = different (shapes, request)'),
      assumptions=E1_ASSUME + ['ShapeN never names the same field twice; distinct isos of a Morphism have distinct, non-overlapping target foci; nil maps are not passed to a map lens',
                               'values written through converting lenses are compared semantically (a conversion may allocate), everything around them byte by byte'],
      parts=[
@@ -108,7 +108,7 @@ prop('C05',
            'synctest bubble, followed by a fair completion phase (all elements offered with the inputs still open, then inputs closed); oracle: list functions on the input; '
            'delivered is a prefix of the expected list at every receive, equal to it when the output closes, per-argument call counts and call order of the user function, '
            'number of elements removed from the input (Take/TakeWhile), early close of Take/TakeWhile without waiting for more input, no goroutine of the stage alive after completion; '
-           'non-trivial = input length >= 2 and (capacity < length or a quiescent point with a blocked producer / full buffer); distinct = different canonical scenario'),
+           'plus Seq/ToSeq: ToSeq(chain(Seq(xs...))) for generated chains of Map/Filter/Take/TakeWhile/FMap over 0..24 (10%: 1000..2200) elements equals the list functions, the caller overwriting its slice right after Seq returned; the input buffer may already hold elements when the stage is created (Prefill); non-trivial = input length >= 2 and (capacity < length or a quiescent point with a blocked producer / full buffer); distinct = different canonical scenario'),
      assumptions=E3_ASSUME,
      parts=[
          dict(name='seq', engine='E3', pkg='pipes', test='TestC05Seq',
@@ -132,7 +132,7 @@ prop('C06',
            'for every stage, mode and capacity {0,1,3}; oracle: no process death (journal), delivered prefix of the uncancelled result at every receive (Fold/ForEach/Void: nothing or the full result), '
            'uncancelled runs: every port closes under a fair consumer and no stage goroutine remains (goroutine census of the bubble; Throttling may keep one pacer); after cancel + close of all inputs with NO further receive: '
            'census empty after a virtual horizon, then every port drains to "closed"; bubble exit without deadlock; '
-           'non-trivial = cancel while a producer is blocked / buffer full, or cancel inside a batch; distinct = different canonical scenario'),
+           '(leak verdicts come from the bubble itself: it cannot end while a goroutine of the stage is blocked; the census is taken for Throttling and to describe a leak); enumerated scenarios are repeated to sample select tie-breaks; non-trivial = cancel while a producer is blocked / buffer full, or cancel inside a batch; distinct = different canonical scenario'),
      assumptions=E3_ASSUME + ['goroutines are attributed to the stage by frames in github.com/fogfish/golem/pipe/v2 within the current bubble'],
      parts=[
          dict(name='cancel-enum', engine='E3', pkg='pipes', test='TestC06Cancel', kind='plain',
@@ -153,7 +153,7 @@ prop('C07',
            '(values first, errors first, alternating, stepwise, fair only); generated: inputs up to 40 elements with duplicates, random failing value sets, random scripts, error values that wrap '
            'context.Canceled / DeadlineExceeded / io.EOF, StdErr wrapping; oracle: exact value and error sequences per mode, both channels closed, call count = k+1 and elements removed <= k+1 under fail-fast, '
            'fail-fast closes without waiting for further input, no stuck state under a fair consumer that reads the error channel; '
-           'non-trivial = at least one failing and one succeeding element with a success after the first failure; distinct = different canonical scenario'),
+           'error values also include a slice-typed (non-comparable) error type; every enumerated Map/FMap mask is also run with the library's own StdErr as the error reader; non-trivial = at least one failing and one succeeding element with a success after the first failure; distinct = different canonical scenario'),
      assumptions=E3_ASSUME + ['the error channel is always eventually read (proviso of the statement)', 'a failing arrow emits nothing before failing'],
      parts=[
          dict(name='enum', engine='E3', pkg='pipes', test='TestC07Enum', kind='plain',
@@ -174,7 +174,7 @@ prop('C08',
            'try-receive, drain-to-empty) ending by class: cancel by the harness, cancel with a backlog just sent, sends racing the cancel inside one batch, close of the send side with a backlog; '
            'oracle: FIFO model of the sends that completed: at every quiescent point every started send has returned (a send never waits for the receiver), received values are exactly 1,2,3,..., '
            'the receive side never closes before cancel/close, and after cancel or close-by-sender a full drain yields every completed send and then "closed"; process survives (journal), bubble ends (no leak); '
-           'non-trivial = backlog >= 2 at some quiescent point and (the stream ends with a backlog / racing sends, or the queue drained to empty and refilled at least twice); distinct = different canonical scenario'),
+           'besides the sequential sender, batches start 1..8 INDEPENDENT one-shot senders (several goroutines parked on a full send buffer while the cancel arrives; their values may arrive in any order, each at most once, every completed one delivered); in 25% of the scenarios a pipe of another element type (string) runs through a few values first in the same process; non-trivial = backlog >= 2 at some quiescent point and (the stream ends with a backlog / racing sends, or the queue drained to empty and refilled at least twice); distinct = different canonical scenario'),
      assumptions=E3_ASSUME + ['no send is started after a completed cancel (the library closes the send side on cancel by design); a send racing the cancel may complete, give up or hit the closed channel - only completed sends enter the model'],
      parts=[
          dict(name='rapid', engine='E3', pkg='pipes', test='TestC08',
@@ -194,7 +194,7 @@ prop('C09',
            'one call held until everything else is done and the input closed, cancel with calls in flight); second tier: the same scenario families free-running under -race with GOMAXPROCS in {1,2,4,16}; '
            'oracle: delivered multisets are sub-multisets of what the sequential stage delivers at every receive and equal at close (Try errors likewise), per-argument call count = multiplicity, in-flight calls <= workers at every quiescent point, '
            'no output observed closed while a call is in flight, closure/cancel/leak clauses as C06 (fair completion, census, bubble exit), no race report; '
-           'non-trivial = workers >= 2, input >= workers+1, and some release opened a gate other than the oldest; distinct = different canonical scenario'),
+           'calls in flight stay gated across a cancel (an output observed closed while a call is in flight is a violation, cancelled or not); a constructed class makes every in-flight call return in the same batch with the output buffer partly filled and nobody receiving (repeated 6 times to sample the overlap); non-trivial = workers >= 2, input >= workers+1, and some release opened a gate other than the oldest; distinct = different canonical scenario'),
      assumptions=E3_ASSUME + ['on cancel the harness opens all gates (a stage cannot terminate a user function that blocks forever)',
                               'Lift-mode fork stages are checked for closure, leaks and sub-multisets only (each worker stops at its own first failure)',
                               'in the free-running tier a hang is a 20 s timeout and reported as inconclusive; termination is decided by the bubble tier'],
@@ -216,7 +216,7 @@ prop('C10',
      rule=('generated: 1..6 workers x input length by class (empty, <= workers, up to 15) x 7 commutative monoids (sum/0, product/1 over distinct primes, max/MinInt, min/MaxInt, and/all-ones, bit-union/0, sum mod p) '
            'with element encodings that keep partial results distinguishable x capacity 0..3 x scripts with release moves gating every Combine call (so the distribution of elements over workers and the merge order are scripted) x optional cancel; '
            'plus the free-running -race tier; oracle: exactly one value, equal to pipe.Fold run on the same input with the same monoid and to a plain loop from Empty(), then closed; under cancel nothing or that value; '
-           'non-trivial = identity different from the zero value, or input >= workers >= 2; distinct = different canonical scenario'),
+           'one in six scenarios uses 60..200 elements in a buffer of 64..len (pre-filled before the stage is created, workers ungated half of the time); a separate part folds with monoids whose carrier is a reference type and whose Combine merges into its left operand (histogram map, counter behind a pointer), compared with pipe.Fold; non-trivial = identity different from the zero value, or input >= workers >= 2; distinct = different canonical scenario'),
      assumptions=E3_ASSUME + ['integer overflow wraps (still commutative and associative); product inputs are distinct primes with at most 15 elements'],
      parts=[
          dict(name='ref-carrier', engine='E4', pkg='pipes', test='TestC10Ref',
@@ -238,7 +238,7 @@ prop('C11',
            '(idle gap, reads) x optional cancel at a drawn virtual time; executed with goroutine actors on the virtual clock of a synctest bubble; oracle: received values are a prefix of the exact successive sequence, errors a prefix of the failing indices, '
            'Emit: consecutive calls of f at least one frequency apart, call i not before i ticks, value j not received before j ticks, f called with 0,1,2,...; an always-ready consumer without faults receives values exactly one frequency apart; '
            'the stage keeps producing until cancelled (bounded virtual wait); after cancel both channels close and the bubble ends; '
-           'non-trivial = >= 3 values received and (capacity < received or an idle gap of >= 2 ticks); distinct = different canonical scenario'),
+           'in a third of the Emit scenarios the step function itself takes 0..3 quarters of a tick of virtual time; in half of the cancelled scenarios the consumer gives up at the cancel; non-trivial = >= 3 values received and (capacity < received or an idle gap of >= 2 ticks); distinct = different canonical scenario'),
      assumptions=E3_ASSUME + ['pacing is checked on the virtual clock, i.e. the logic of sleeping, not scheduler latency'],
      parts=[
          dict(name='rapid', engine='E3', pkg='pipes', test='TestC11',
@@ -271,7 +271,7 @@ prop('C12',
      level='exploration',
      rule=('generated: k in {0,1,2,3,4,5,9,12} inputs of 0..6 tagged elements (input*1000+seq), capacities 0..3 each, scripts of up to 40+4k moves interleaving sends/bursts/closes on all inputs and receives; '
            'oracle at every receive: per-input subsequence of the delivered elements is a prefix of that input, no foreign element; if the output is observed closed: every input closed and fully delivered; completion: everything delivered then closed; '
-           'non-trivial = k >= 2, two non-empty inputs, sends alternate between inputs; distinct = different canonical scenario'),
+           'the slice of channels handed to Join is overwritten right after the call; one scenario in eight hands the same channel to Join twice (multiset oracle, no invented values); non-trivial = k >= 2, two non-empty inputs, sends alternate between inputs; distinct = different canonical scenario'),
      assumptions=E3_ASSUME,
      parts=[
          dict(name='rapid', engine='E3', pkg='pipes', test='TestC12',
@@ -290,7 +290,7 @@ prop('C14',
            'sub-trees evaluated with a shift derived from the outer element and return nil on a drawn residue class; oracle: a list interpreter '
            '(evalS) compared with the slice collected by the documented loop, and with seq.ForEach under a callback failing at a drawn position '
            '(visited prefix and returned error); source slices compared with private copies afterwards; '
-           'non-trivial = depth >= 3, expected length >= 1, >= 2 different combinators; distinct = different canonical tree+fail position'),
+           'a third of the slice leaves are windows buf[:n] of larger buffers whose hidden capacity holds sentinels that must survive; non-trivial = depth >= 3, expected length >= 1, >= 2 different combinators; distinct = different canonical tree+fail position'),
      assumptions=['element type int only; user functions are pure and total', 'an empty result may be a nil Seq or an iterator-less loop: compared by the collected slice'],
      parts=[
          dict(name='enum', engine='E5', pkg='iters', test='TestC14Enum', kind='plain', quick=dict(shards=4), thorough=dict(shards=8)),
@@ -362,7 +362,7 @@ prop('C17',
            'tables, monoid/semigroup constructors) x triples of ints (boundary-biased) / strings (pieces incl. empty, proper prefixes, '
            'multi-byte runes, invalid UTF-8) x projection and operation parameters; oracles: ==, cmp.Compare, strings.Compare, bytes.Compare, '
            'the base instance applied to projections with an argument-recording asymmetric base, the wrapped function itself; '
-           'non-trivial = the first two arguments differ; distinct = different canonical scenario'),
+           'monoid.From over an already lifted monoid (two levels) must take the new empty element; non-trivial = the first two arguments differ; distinct = different canonical scenario'),
      assumptions=['the harness builds against /repo/pure of the working tree (replace directive), not the cached pure v0.10.1'],
      parts=[
          dict(name='grid', engine='E7', pkg='c17', test='TestC17Grid', kind='plain', quick=dict(shards=1), thorough=dict(shards=1)),
@@ -384,7 +384,7 @@ prop('C18',
            'under 3 drawn height seeds (virtual clock offset inside a synctest bubble, which is what seeds the node heights); oracle: Go map for every '
            'return value and for Get of the whole universe after EVERY step, plus the parsed String() form after every step (live keys strictly ascending '
            'under the scenario order and equal to the model key set, forward pointers only to strictly larger live keys); '
-           'non-trivial = the history re-inserts or reads a removed key, overwrites a key, or inserts in descending order; distinct = different canonical scenario'),
+           'string keys include '%' characters (100%, %v, a%sb, %d%%); non-trivial = the history re-inserts or reads a removed key, overwrites a key, or inserts in descending order; distinct = different canonical scenario'),
      assumptions=['internal/maplike is exercised as a staged copy of the working-tree sources under the import path github.com/fogfish/golem/maplike',
                   'node heights are made deterministic through the bubble clock only (no source change): skiplist.New seeds from time.Now()',
                   'string keys are non-empty and contain no blanks so that the printed form can be parsed unambiguously'],
@@ -408,7 +408,7 @@ prop('C19',
            'Head, Length, IsEmpty, Fold with (a*31+b) mod p from a non-neutral Empty) over a growing register file, register indices taken modulo the '
            'registers existing; executed in lock-step on list.Trait[int], slice.Trait[int] and a [][]int model; after EVERY step every register is '
            're-read through Head/Tail/IsEmpty on both implementations and compared with the model (persistence); '
-           'non-trivial = some Cons on a register of length >= 1 or Tail on a register of length >= 2 (so a register is re-read after being extended/cut); '
+           '5% of the New operations use a window of a buffer with 1100..2500 spare elements, 5% more than 1024 elements; non-trivial = some Cons on a register of length >= 1 or Tail on a register of length >= 2 (so a register is re-read after being extended/cut); '
            'distinct = different canonical script'),
      assumptions=['internal/seq is exercised as a staged copy of the working-tree sources under the import path github.com/fogfish/golem/seq',
                   'Head/Tail of an empty sequence are outside the statement and are not generated'],
@@ -432,7 +432,7 @@ prop('C20',
      rule=('generated: N in 2..20, a family of N functions (position-tagged trace appenders on strings, '
            'affine maps mod 1000003, arbitrary lookup tables on [0,7)), 1..3 arguments applied in turn to the one '
            'composed function; oracle: left-to-right fold of the same functions + per-function call counters; '
-           'non-trivial = all N functions pairwise different; distinct = different canonical scenario'),
+           'two more families: functions over `any` returning the nil interface for some inputs, and a stage that re-enters the composed function while the outer call is in flight; a third of the scenarios call with the same argument twice in a row; non-trivial = all N functions pairwise different; distinct = different canonical scenario'),
      assumptions=['internal/pipe is exercised as a staged copy of the working-tree source (package pure, imported as verif.stage/purepipe)',
                   'type parameters are instantiated at int and string only; the generic bodies are parametric in their types'],
      parts=[
